@@ -652,6 +652,14 @@ func genSweepRecv(r *rand.Rand) (string, string) {
 	if r.Intn(3) == 0 {
 		c := genRenderCond(r, 1)
 		c.Cfg.Enc = nil
+		if r.Intn(5) == 0 {
+			// a multi-valued expression ([]string) on a Condition that encapsulates its value: rendering reads the slice
+			c.Xs[0] = V{T: 'o', Ty: 31, ID: 1 + r.Intn(3)}
+			c.Cfg.Enc = [][]string{{`"`}}
+			if r.Intn(2) == 0 {
+				c.Cfg.Enc = [][]string{{"(", ")"}, {"'"}}
+			}
+		}
 		if r.Intn(3) == 0 {
 			sprinklePolicies(r, &c)
 		}
